@@ -128,3 +128,178 @@ mod varint {
         }
     }
 }
+
+/// C15 / C16 byte-level codec: the length-prefix writer, the prefix reader and the canonical-atom
+/// check, called directly through the cfg-guarded hooks.  Inputs are fully symbolic; every loop is
+/// bounded by the prefix length (<= 8); these are complete proofs, not bounded stand-ins.
+#[cfg(kani)]
+#[cfg(chia_network_clvm_rs_verif)]
+mod prefix {
+    use clvmr::serde::verif_hooks::{decode_size_with_offset, is_canonical_atom, write_atom_encoding_prefix_with_size};
+    use std::io::{Cursor, Write};
+
+    struct Sink {
+        buf: [u8; 8],
+        len: usize,
+    }
+    impl Write for Sink {
+        fn write(&mut self, b: &[u8]) -> std::io::Result<usize> {
+            let mut i = 0;
+            while i < b.len() && self.len < 8 {
+                self.buf[self.len] = b[i];
+                self.len += 1;
+                i += 1;
+            }
+            Ok(i)
+        }
+        fn flush(&mut self) -> std::io::Result<()> {
+            Ok(())
+        }
+    }
+
+    /// the classic length prefix as the format defines it (docs; statement of C15):
+    /// size 0 -> 80; one byte < 0x80 -> no prefix; then 6, 13, 20, 27, 34 bit sizes with 1..5 byte prefixes
+    fn spec_prefix(size: u64, first: u8) -> ([u8; 5], usize) {
+        if size == 0 {
+            ([0x80, 0, 0, 0, 0], 1)
+        } else if size == 1 && first < 0x80 {
+            ([0; 5], 0)
+        } else if size < (1 << 6) {
+            ([0x80 | size as u8, 0, 0, 0, 0], 1)
+        } else if size < (1 << 13) {
+            ([0xc0 | (size >> 8) as u8, size as u8, 0, 0, 0], 2)
+        } else if size < (1 << 20) {
+            ([0xe0 | (size >> 16) as u8, (size >> 8) as u8, size as u8, 0, 0], 3)
+        } else if size < (1 << 27) {
+            ([0xf0 | (size >> 24) as u8, (size >> 16) as u8, (size >> 8) as u8, size as u8, 0], 4)
+        } else {
+            ([0xf8 | (size >> 32) as u8, (size >> 24) as u8, (size >> 16) as u8, (size >> 8) as u8, size as u8], 5)
+        }
+    }
+
+    /// encoder == specification for every size and first byte; sizes >= 2^34 are refused
+    #[kani::proof]
+    #[kani::unwind(9)]
+    fn prefix_encoder_matches_spec() {
+        let size: u64 = kani::any();
+        let first: u8 = kani::any();
+        let mut s = Sink { buf: [0; 8], len: 0 };
+        let r = write_atom_encoding_prefix_with_size(&mut s, first, size);
+        if size >= (1u64 << 34) {
+            assert!(r.is_err());
+        } else {
+            assert!(r.is_ok());
+            let (want, n) = spec_prefix(size, first);
+            assert!(s.len == n);
+            let mut i = 0;
+            while i < 5 {
+                if i < n {
+                    assert!(s.buf[i] == want[i]);
+                }
+                i += 1;
+            }
+        }
+    }
+
+    /// decoder is the inverse of the specification on every size (round trip of the prefix)
+    #[kani::proof]
+    #[kani::unwind(9)]
+    fn prefix_decoder_inverts_spec() {
+        let size: u64 = kani::any();
+        let first: u8 = kani::any();
+        kani::assume(size < (1u64 << 34));
+        kani::assume(!(size == 1 && first < 0x80));
+        let (p, n) = spec_prefix(size, first);
+        let rest: [u8; 4] = [p[1], p[2], p[3], p[4]];
+        let mut cur = Cursor::new(&rest[..n - 1]);
+        let r = decode_size_with_offset(&mut cur, p[0]);
+        assert!(r.is_ok());
+        let (off, sz) = r.unwrap();
+        assert!(off as usize == n);
+        assert!(sz == size);
+        assert!(cur.position() as usize == n - 1);
+    }
+
+    /// decoder totality on every prefix: never panics; Ok => consumed leading_ones-1 bytes, size < 2^34
+    #[kani::proof]
+    #[kani::unwind(9)]
+    fn prefix_decoder_total() {
+        let first: u8 = kani::any();
+        kani::assume(first & 0x80 != 0);
+        let rest: [u8; 7] = kani::any();
+        let avail: usize = kani::any();
+        kani::assume(avail <= 7);
+        let mut cur = Cursor::new(&rest[..avail]);
+        let r = decode_size_with_offset(&mut cur, first);
+        let k = first.leading_ones() as usize;
+        match r {
+            Ok((off, sz)) => {
+                assert!(off as usize == k && k <= 6);
+                assert!(sz < (1u64 << 34));
+                assert!(cur.position() as usize == k - 1);
+                // the value is the big-endian number after the leading ones
+                let mut v: u64 = (first & (0xffu16 >> k) as u8) as u64;
+                let mut i = 0;
+                while i + 1 < k {
+                    v = (v << 8) | rest[i] as u64;
+                    i += 1;
+                }
+                assert!(v == sz);
+            }
+            Err(_) => {
+                let mut v: u64 = (first & (0xffu16 >> k.min(8)) as u8) as u64;
+                let mut i = 0;
+                while i + 1 < k && i < 7 {
+                    v = (v << 8) | rest[i] as u64;
+                    i += 1;
+                }
+                assert!(k > 6 || avail + 1 < k || v >= (1u64 << 34));
+            }
+        }
+    }
+
+    /// C15/C16: the canonical-atom check accepts a prefix exactly when it is the prefix the format
+    /// defines for the size it denotes (i.e. what the encoder emits), for every prefix
+    #[kani::proof]
+    #[kani::unwind(9)]
+    fn canonical_atom_iff_minimal_prefix() {
+        let buf: [u8; 8] = kani::any();
+        let first = buf[0];
+        kani::assume(first > 0x7f && first != 0x80);
+        let avail: usize = kani::any();
+        kani::assume(avail >= 1 && avail <= 8);
+        let mut cur = Cursor::new(&buf[..avail]);
+        cur.set_position(1);
+        let r = is_canonical_atom(&mut cur, first);
+        let k = first.leading_ones() as usize;
+        // what the prefix denotes
+        let complete = k <= 6 && avail >= k;
+        let mut v: u64 = (first & (0xffu16 >> k.min(8)) as u8) as u64;
+        let mut i = 1;
+        while i < k && i < 7 {
+            v = (v << 8) | buf[i] as u64;
+            i += 1;
+        }
+        if !complete || v >= (1u64 << 34) {
+            assert!(!r);
+        } else {
+            // first byte of the atom (only matters for size 1)
+            let data0_present = avail > k;
+            let data0 = if data0_present { buf[k] } else { 0 };
+            if v == 1 && !data0_present {
+                assert!(!r);
+            } else {
+                let (want, n) = spec_prefix(v, data0);
+                let mut same = n == k;
+                let mut j = 0;
+                while j < 5 {
+                    if j < n && j < k && buf[j] != want[j] {
+                        same = false;
+                    }
+                    j += 1;
+                }
+                assert!(r == same);
+            }
+        }
+    }
+}
